@@ -3,6 +3,6 @@
 # Never run while another check is running (the patch is applied to /repo itself).
 d=/verif/seeded/$1; p=$2; tier=${3:-quick}
 git -C /repo apply $d/patch.diff || exit 2
-(cd /verif && bin/check $p --tier $tier 2>&1 | grep -v '^TRACE\|^MC \|^SWEEP' | head -${LINES_MAX:-14}); 
+(cd /verif && VERIF_EVIDENCE_DIR=/verif/.work/seed-evidence bin/check $p --tier $tier 2>&1 | grep -v '^TRACE\|^MC \|^SWEEP' | head -${LINES_MAX:-14}); 
 git -C /repo checkout -- . ; git -C /repo status --short
-git -C /verif checkout -- evidence
+
